@@ -40,6 +40,10 @@ theorem OptRel.of_some_right {o : Option α} {y : α'} (h : OptRel R o (some y))
   | none => exact absurd h (by simp [OptRel])
   | some x => exact ⟨x, rfl, h⟩
 
+theorem OptRel.cases {o : Option α} {o' : Option α'} (h : OptRel R o o') :
+    (o = none ∧ o' = none) ∨ ∃ x x', o = some x ∧ o' = some x' ∧ R x x' := by
+  cases o <;> cases o' <;> simp_all [OptRel]
+
 theorem OptRel.some_iff {x : α} {y : α'} : OptRel R (some x) (some y) ↔ R x y := Iff.rfl
 
 theorem ArrRel.size_eq {a : Array α} {a' : Array α'} (h : ArrRel R a a') : a.size = a'.size := h.1
@@ -488,6 +492,223 @@ theorem inferDegree_rel (H : OpsRel ops ops' Rb Ra) (HB : BaseRel B B' Rb) (maxL
       cases e3 : interpolatePolyWithOffset ops B maxLoop v _ o <;>
         cases e3' : interpolatePolyWithOffset ops' B' maxLoop v' _ o' <;> simp_all [OptRel]
       exact degreeOf_rel H hi
+
+/-! ### the segmented row-major LDE -/
+
+theorem rowOps_rel {add sub mul : β → β → β} {isz : β → Bool} {add' sub' mul' : β' → β' → β'} {isz' : β' → Bool}
+    (hadd : ∀ a a' b b', Rb a a' → Rb b b' → Rb (add a b) (add' a' b'))
+    (hsub : ∀ a a' b b', Rb a a' → Rb b b' → Rb (sub a b) (sub' a' b'))
+    (hmul : ∀ a a' b b', Rb a a' → Rb b b' → Rb (mul a b) (mul' a' b'))
+    (hisz : ∀ a a', Rb a a' → isz a = isz' a') :
+    OpsRel (rowOps add sub mul isz) (rowOps add' sub' mul' isz') Rb (ArrRel Rb) where
+  add x x' y y' hx hy := hx.zipWith hy (fun a a' b b' => hadd a a' b b')
+  sub x x' y y' hx hy := hx.zipWith hy (fun a a' b b' => hsub a a' b b')
+  mulBase x x' t t' hx ht := hx.map (fun a a' ha => hmul a a' t t' ha ht)
+  isZero x x' hx := by
+    simp only [rowOps]
+    rw [Bool.eq_iff_iff, Array.all_eq_true, Array.all_eq_true]
+    constructor
+    · intro h i hi
+      have hi0 : i < x.size := hx.1 ▸ hi
+      rw [← hisz _ _ (hx.2 i hi0 hi)]; exact h i hi0
+    · intro h i hi
+      have hi0 : i < x'.size := hx.1 ▸ hi
+      rw [hisz _ _ (hx.2 i hi hi0)]; exact h i hi0
+
+theorem evaluationOffsets_rel (HB : BaseRel B B' Rb) (n blowup : Nat) {o : β} {o' : β'} (ho : Rb o o') :
+    OptRel (ArrRel Rb) (evaluationOffsets B n blowup o) (evaluationOffsets B' n blowup o') := by
+  unfold evaluationOffsets
+  cases ilog2 (n * blowup) with
+  | none => trivial
+  | some k =>
+    simp only
+    have hr := HB.root k
+    cases e : B.rootOfUnity k <;> cases e' : B'.rootOfUnity k <;> simp_all [OptRel]
+    by_cases c : n = 0
+    · simp [c]
+    · simp only [c, ↓reduceIte]
+      apply forRange_rel _ _ _ _ _ _ _ ArrRel.empty
+      intro i s s' hs
+      cases e2 : permuteIndex blowup i with
+      | none => trivial
+      | some idx =>
+        simp only
+        exact hs.append (ArrRel.of_forall₂ (powersFrom_rel HB
+          (HB.mul _ _ _ _ (HB.exp _ _ idx hr (permuteIndex_lt e2)) ho) n _ _ HB.one))
+
+theorem buildArr_rel {γ γ' : Type} {S : γ → γ' → Prop} (f : Nat → Option γ) (f' : Nat → Option γ')
+    (n : Nat) (h : ∀ i, i < n → OptRel S (f i) (f' i)) : OptRel (ArrRel S) (buildArr f n) (buildArr f' n) := by
+  induction n with
+  | zero => exact ArrRel.empty
+  | succ n ih =>
+    simp only [buildArr]
+    rcases (ih (fun i hi => h i (by omega))).cases with ⟨e, e'⟩ | ⟨a, a', e, e', h1⟩
+    · rw [e, e']; trivial
+    · rw [e, e']
+      dsimp only
+      exact (h n (by omega)).map (fun x x' hx => h1.push hx)
+
+theorem segmentChunk_rel {mul : β → β → β} {mul' : β' → β' → β'}
+    (hmul : ∀ a a' b b', Rb a a' → Rb b b' → Rb (mul a b) (mul' a' b')) {z : β} {z' : β'} (hz : Rb z z')
+    (N numPolys : Nat) {polys : Array (Array β)} {polys' : Array (Array β')} (hp : ArrRel (ArrRel Rb) polys polys')
+    (n po : Nat) {offs : Array β} {offs' : Array β'} (ho : ArrRel Rb offs offs') (c : Nat) :
+    OptRel (ArrRel (ArrRel Rb)) (segmentChunk mul z N numPolys polys n po offs c)
+      (segmentChunk mul' z' N numPolys polys' n po offs' c) := by
+  unfold segmentChunk
+  apply buildArr_rel
+  intro row _
+  rcases (ho.getElem? (c * n + row)).cases with ⟨e, e'⟩ | ⟨x, x', e, e', h1⟩
+  · rw [e, e']; trivial
+  · rw [e, e']
+    dsimp only
+    apply buildArr_rel
+    intro i _
+    by_cases ci : i < numPolys
+    · rw [if_pos ci, if_pos ci]
+      rcases (hp.getElem? (po + i)).cases with ⟨e2, e2'⟩ | ⟨col, col', e2, e2', h2⟩
+      · rw [e2, e2']; trivial
+      · rw [e2, e2']
+        exact (h2.getElem? row).map (fun y y' hy => hmul _ _ _ _ hy h1)
+    · rw [if_neg ci, if_neg ci]; exact hz
+
+theorem segmentNew_rel {rops : Ops β (Array β)} {rops' : Ops β' (Array β')} (H : OpsRel rops rops' Rb (ArrRel Rb))
+    {mul : β → β → β} {mul' : β' → β' → β'}
+    (hmul : ∀ a a' b b', Rb a a' → Rb b b' → Rb (mul a b) (mul' a' b')) {z : β} {z' : β'} (hz : Rb z z')
+    (maxLoop N : Nat) {polys : Array (Array β)} {polys' : Array (Array β')} (hp : ArrRel (ArrRel Rb) polys polys')
+    (n po : Nat) {offs : Array β} {offs' : Array β'} (ho : ArrRel Rb offs offs')
+    {tw : Array β} {tw' : Array β'} (htw : ArrRel Rb tw tw') :
+    OptRel (ArrRel (ArrRel Rb)) (segmentNew rops mul z maxLoop N polys n po offs tw)
+      (segmentNew rops' mul' z' maxLoop N polys' n po offs' tw') := by
+  unfold segmentNew
+  rw [ho.1, htw.1, hp.1]
+  dsimp only
+  by_cases c1 : ¬ (isPow2 offs'.size = true ∧ offs'.size > n ∧ n = tw'.size * 2 ∧ po < polys'.size)
+  · rw [if_pos c1, if_pos c1]; trivial
+  · rw [if_neg c1, if_neg c1]
+    by_cases c2 : n = 0
+    · rw [if_pos c2, if_pos c2]; trivial
+    · rw [if_neg c2, if_neg c2]
+      refine OptRel.bind (R := ArrRel (ArrRel Rb)) ?_ (fun x x' hx => permute_rel hx)
+      apply forRange_rel _ _ _ _ _ _ _ ArrRel.empty
+      intro c s s' hs
+      have h1 := segmentChunk_rel hmul hz N (min (polys'.size - po) N) hp n po ho c
+      cases e : segmentChunk mul z N (min (polys'.size - po) N) polys n po offs c <;>
+        cases e' : segmentChunk mul' z' N (min (polys'.size - po) N) polys' n po offs' c <;> simp_all [OptRel]
+      exact (fftTop_rel H maxLoop htw h1).map (fun x x' hx => hs.append hx)
+
+theorem transposeSegments_rel {segs : Array (Array (Array β))} {segs' : Array (Array (Array β'))}
+    (h : ArrRel (ArrRel (ArrRel Rb)) segs segs') (R : Nat) :
+    OptRel (ArrRel (ArrRel Rb)) (transposeSegments segs R) (transposeSegments segs' R) := by
+  unfold transposeSegments
+  rw [h.1]
+  by_cases c : segs'.size = 1
+  · simp only [c, ↓reduceIte]; exact h.getElem? 0
+  · simp only [c, ↓reduceIte]
+    apply forRange_rel _ _ _ _ _ _ _ (ArrRel.replicate _ ArrRel.empty)
+    intro i s s' hs
+    apply forRange_rel _ _ _ _ _ _ _ hs
+    intro j u u' hu
+    rcases (h.getElem? j).cases with ⟨e, e'⟩ | ⟨sg, sg', e, e', h1⟩
+    · rw [e, e']; trivial
+    · rw [e, e']
+      dsimp only
+      rcases (h1.getElem? i).cases with ⟨e2, e2'⟩ | ⟨cells, cells', e2, e2', h2⟩
+      · rw [e2, e2']; trivial
+      · rw [e2, e2']
+        dsimp only
+        by_cases c3 : i * segs'.size + j < u'.size
+        · have c3' : i * segs'.size + j < u.size := hu.1 ▸ c3
+          rw [dif_pos c3', dif_pos c3]
+          exact hu.set h2 _ c3' c3
+        · have c3' : ¬ i * segs'.size + j < u.size := hu.1 ▸ c3
+          rw [dif_neg c3', dif_neg c3]; trivial
+
+theorem flattenRows_rel {rows : Array (Array β)} {rows' : Array (Array β')} (h : ArrRel (ArrRel Rb) rows rows') :
+    OptRel (ArrRel Rb) (flattenRows rows) (flattenRows rows') := by
+  unfold flattenRows
+  rw [h.1]
+  apply forRange_rel _ _ _ _ _ _ _ ArrRel.empty
+  intro t s s' hs
+  exact (h.getElem? t).map (fun x x' hx => hs.append hx)
+
+/-- related row-major matrices -/
+def RowMatRel (Rb : β → β' → Prop) (m : RowMat β) (m' : RowMat β') : Prop :=
+  ArrRel Rb m.data m'.data ∧ m.rowWidth = m'.rowWidth ∧ m.elementsPerRow = m'.elementsPerRow
+
+theorem rowMatrixFromPolys_rel {rops : Ops β (Array β)} {rops' : Ops β' (Array β')}
+    (H : OpsRel rops rops' Rb (ArrRel Rb)) {mul : β → β → β} {mul' : β' → β' → β'}
+    (hmul : ∀ a a' b b', Rb a a' → Rb b b' → Rb (mul a b) (mul' a' b')) {z : β} {z' : β'} (hz : Rb z z')
+    (maxLoop N : Nat) {polys : Array (Array β)} {polys' : Array (Array β')} (hp : ArrRel (ArrRel Rb) polys polys')
+    (n : Nat) {offs : Array β} {offs' : Array β'} (ho : ArrRel Rb offs offs')
+    {tw : Array β} {tw' : Array β'} (htw : ArrRel Rb tw tw') :
+    OptRel (RowMatRel Rb) (rowMatrixFromPolys rops mul z maxLoop N polys n offs tw)
+      (rowMatrixFromPolys rops' mul' z' maxLoop N polys' n offs' tw') := by
+  unfold rowMatrixFromPolys
+  rw [hp.1]
+  by_cases c0 : N = 0
+  · rw [if_pos c0, if_pos c0]; trivial
+  · rw [if_neg c0, if_neg c0]
+    dsimp only
+    rcases (buildArr_rel (S := ArrRel (ArrRel Rb))
+      (fun i => segmentNew rops mul z maxLoop N polys n (i * N) offs tw)
+      (fun i => segmentNew rops' mul' z' maxLoop N polys' n (i * N) offs' tw')
+      (if polys'.size % N = 0 then polys'.size / N else polys'.size / N + 1)
+      (fun i _ => segmentNew_rel H hmul hz maxLoop N hp n (i * N) ho htw)).cases with ⟨e, e'⟩ | ⟨segs, segs', e, e', hb⟩
+    · rw [e, e']; trivial
+    · rw [e, e']
+      dsimp only
+      rw [hb.1]
+      by_cases c1 : segs'.size = 0
+      · rw [if_pos c1, if_pos c1]; trivial
+      · rw [if_neg c1, if_neg c1]
+        by_cases c2 : polys'.size > segs'.size * N
+        · rw [if_pos c2, if_pos c2]; trivial
+        · rw [if_neg c2, if_neg c2]
+          rcases (hb.getElem? 0).cases with ⟨e0, e0'⟩ | ⟨s0, s0', e0, e0', h0⟩
+          · rw [e0, e0']; trivial
+          · rw [e0, e0']
+            dsimp only
+            rw [h0.1]
+            rcases ((transposeSegments_rel hb s0'.size).bind (fun x x' hx => flattenRows_rel hx)).cases with
+              ⟨e3, e3'⟩ | ⟨d, d', e3, e3', hd⟩
+            · rw [e3, e3']; trivial
+            · rw [e3, e3']
+              exact ⟨hd, rfl, rfl⟩
+
+theorem starkDomainBlowup_rel (HB : BaseRel B B' Rb) {tw : Array β} {tw' : Array β'} (htw : ArrRel Rb tw tw')
+    (blowup : Nat) : starkDomainBlowup B tw blowup = starkDomainBlowup B' tw' blowup := by
+  unfold starkDomainBlowup
+  rw [htw.1]
+  by_cases c : ¬ (isPow2 tw'.size = true ∧ isPow2 blowup = true)
+  · rw [if_pos c, if_pos c]
+  · rw [if_neg c, if_neg c]
+    dsimp only
+    cases ilog2 (tw'.size * blowup * 2) with
+    | none => rfl
+    | some k =>
+      simp only
+      have hr := HB.root k
+      cases e : B.rootOfUnity k <;> cases e' : B'.rootOfUnity k <;> simp_all [OptRel]
+
+theorem evaluatePolysOver_rel {rops : Ops β (Array β)} {rops' : Ops β' (Array β')}
+    (H : OpsRel rops rops' Rb (ArrRel Rb)) (HB : BaseRel B B' Rb) {z : β} {z' : β'} (hz : Rb z z')
+    (maxLoop N : Nat) {polys : Array (Array β)} {polys' : Array (Array β')} (hp : ArrRel (ArrRel Rb) polys polys')
+    (n : Nat) {tw : Array β} {tw' : Array β'} (htw : ArrRel Rb tw tw') (blowup : Nat)
+    {o : β} {o' : β'} (ho : Rb o o') :
+    OptRel (RowMatRel Rb) (evaluatePolysOver rops B z maxLoop N polys n tw blowup o)
+      (evaluatePolysOver rops' B' z' maxLoop N polys' n tw' blowup o') := by
+  unfold evaluatePolysOver
+  by_cases c0 : N = 0
+  · simp [c0, OptRel]
+  · simp only [c0, ↓reduceIte]
+    rw [starkDomainBlowup_rel HB htw]
+    cases starkDomainBlowup B' tw' blowup with
+    | none => trivial
+    | some b =>
+      simp only
+      have h1 := evaluationOffsets_rel HB n b ho
+      cases e : evaluationOffsets B n b o <;> cases e' : evaluationOffsets B' n b o' <;> simp_all [OptRel]
+      exact rowMatrixFromPolys_rel H HB.mul hz maxLoop N hp n h1 htw
 
 end nat
 
